@@ -120,7 +120,13 @@ PowDoubleFails(e) ==
   ELSE IF e.o1 # "value" \/ e.o2 # "value" THEN ""
   ELSE F(e.r1.s = e.r2.s \/ (e.r1.k # "none" /\ e.r2.k # "none" /\ Num8(e.r1) = Num8(e.r2)), "'^' on integer operands differs from exponentiation of the same numbers")
 
-Fails(e) == CASE e.op = "alias" -> AliasFails(e) [] e.op = "powdouble" -> PowDoubleFails(e) [] e.op = "bin" -> BinFails(e) [] e.op = "un" -> UnFails(e) [] e.op = "cmp" -> CmpFails(e)
+\* a step of a history on one manager: the operator is a function of its operand VALUES - it returns what a new manager returns
+\* for new copies of the operands, whatever was computed before and whichever objects carry the operands
+BStepFails(e) ==
+  IF e.outcome = "panic" /\ e.fo # "panic" THEN "the operator crashed on a long-lived manager; "
+  ELSE F(e.outcome = e.fo /\ (e.outcome = "value" => e.r.t = e.fr.t /\ e.r.s = e.fr.s),
+         "an operator call on a long-lived manager differs from the same call on a new manager with new operand objects (it depends on earlier calls or on operand identity)")
+Fails(e) == CASE e.op = "bstep" -> BStepFails(e) [] e.op = "alias" -> AliasFails(e) [] e.op = "powdouble" -> PowDoubleFails(e) [] e.op = "bin" -> BinFails(e) [] e.op = "un" -> UnFails(e) [] e.op = "cmp" -> CmpFails(e)
               [] e.op = "law" -> LawFails(e) [] e.op = "in" -> InFails(e) [] e.op = "elem" -> ElemFails(e) [] OTHER -> ""
 Init == l = 1
 Next ==
